@@ -1,6 +1,7 @@
 package checks
 
 import (
+	"bytes"
 	"crypto/rand"
 	"fmt"
 	"math/big"
@@ -536,6 +537,61 @@ func c10Cases(env vk.Env) []vk.Case {
 	return cs
 }
 
+// c10TranscriptCoverage observes (hook H3) what the verifier absorbs into its transcript while it recomputes the
+// challenge of an honest proof, and demands that every public input of the statement is among it: a public input that
+// only appears in the verification equations can be chosen after the challenge is known (weak Fiat-Shamir).
+func c10TranscriptCoverage(t *vk.T, sys zkSystem, inst *zkInst, h *hash.Hash, proof interface{}, class string) {
+	var items [][]byte
+	hash.VerifWrite = func(_ string, data []byte) { items = append(items, append([]byte{}, data...)) }
+	ok := false
+	vk.Guard(func() { ok = inst.verify(h.Clone(), inst.pub, proof) })
+	hash.VerifWrite = nil
+	if !ok || len(items) == 0 {
+		t.Obs("transcript_observations_unavailable", 1)
+		return
+	}
+	var pl []leaf
+	leaves(cloneStruct(inst.pub), "", &pl)
+	covered := 0
+	for _, l := range pl {
+		var enc []byte
+		v := l.v.Interface()
+		switch x := v.(type) {
+		case hash.WriterToWithDomain:
+			var buf bytes.Buffer
+			if _, err := x.WriteTo(&buf); err != nil {
+				continue
+			}
+			enc = buf.Bytes()
+		case interface{ MarshalBinary() ([]byte, error) }:
+			b, err := x.MarshalBinary()
+			if err != nil {
+				continue
+			}
+			enc = b
+		default:
+			continue
+		}
+		if len(enc) == 0 {
+			continue
+		}
+		found := false
+		for _, it := range items {
+			if bytes.Equal(it, enc) || (len(enc) >= 16 && bytes.Contains(it, enc)) {
+				found = true
+				break
+			}
+		}
+		t.Obs("public_inputs_looked_for_in_transcript", 1)
+		if found {
+			covered++
+			continue
+		}
+		t.Violation(sys.name+"|public-input-not-in-challenge-transcript|"+l.path, "%s: while verifying an honest proof (witness class %s) the verifier absorbed %d items into its transcript, none of which is the public input %s (%d bytes): the challenge does not depend on it", sys.name, class, len(items), l.path, len(enc))
+	}
+	t.Distinct("%s|transcript-covers-%d-public-inputs", sys.name, covered)
+}
+
 func c10Verify(t *vk.T, inst *zkInst, h *hash.Hash, pub reflect.Value, proof interface{}) (accepted bool, panicked bool) {
 	p, _, _ := vk.Guard(func() { accepted = inst.verify(h.Clone(), pub, proof) })
 	t.Obs("evaluations", 1)
@@ -579,6 +635,7 @@ func c10Run(t *vk.T, sys zkSystem, class string, ei int, full bool) {
 		return
 	}
 	t.Distinct("%s|complete|%s", sys.name, class)
+	c10TranscriptCoverage(t, sys, inst, h, proof, class)
 	// the same prover proves the same statement again from the very same witness objects (one proof per recipient):
 	// completeness must not depend on how often the witness was used
 	var proofAgain interface{}
